@@ -52,7 +52,7 @@ func (s BMSpace) Shards() []BMShard {
 
 // Each calls f with every bitmap of the shard; the slice is reused.
 func (d BMShard) Each(f func(w []uint64)) {
-	w := make([]uint64, d.Len)
+	w := DirtyU64(make([]uint64, d.Len), 3) // 3 words of spare capacity holding a canary
 	if d.WidePos < 0 {
 		copy(w, d.Prefix)
 		free := d.Len - len(d.Prefix)
@@ -141,7 +141,7 @@ func (s SparseSpace) Shards() int { return s.Len + 1 }
 // Each enumerates shard sh: sh == Len is the all-zero bitmap, otherwise all
 // bitmaps whose first island sits at word sh.
 func (s SparseSpace) Each(sh int, f func(w []uint64)) {
-	w := make([]uint64, s.Len)
+	w := DirtyU64(make([]uint64, s.Len), 3)
 	if sh == s.Len {
 		f(w)
 		return
